@@ -23,6 +23,8 @@ PROBES = {
     "swizzle_dyn": "xs::batch<xs::as_unsigned_integer_t<T>, A> idx(0); sink(xs::swizzle(x, idx));",
     "swizzle_const": "sink(xs::swizzle(x, xs::make_batch_constant<xs::as_unsigned_integer_t<T>, rev, A>()));",
     "swizzle_const_mix": "sink(xs::swizzle(x, xs::make_batch_constant<xs::as_unsigned_integer_t<T>, mixs, A>()));",
+    "swizzle_const_pairs": "sink(xs::swizzle(x, xs::make_batch_constant<xs::as_unsigned_integer_t<T>, prs, A>()));",
+    "swizzle_const_split1": "sink(xs::swizzle(x, xs::make_batch_constant<xs::as_unsigned_integer_t<T>, sph<1>, A>()));",
     "shuffle": "sink(xs::shuffle(x, y, xs::make_batch_constant<xs::as_unsigned_integer_t<T>, mix, A>()));",
     "zip_lo": "sink(xs::zip_lo(x, y));",
     "zip_hi": "sink(xs::zip_hi(x, y));",
@@ -46,6 +48,8 @@ TEMPLATE = r"""
 #include <cstdint>
 namespace xs = xsimd;
 using A = XSV_ARCH;
+struct prs { static constexpr unsigned get(unsigned i, unsigned n) { return (n / 2 - 1 - i / 2) * 2 + i % 2; } };
+template <unsigned N> struct sph { static constexpr unsigned get(unsigned i, unsigned) { return i >= N ? (i % 2) : i + N; } };
 struct rev { static constexpr unsigned get(unsigned i, unsigned n) { return n - 1 - i; } };
 struct mixs { static constexpr unsigned get(unsigned i, unsigned n) { return (i * 5 + 3) % n; } };
 struct mix { static constexpr unsigned get(unsigned i, unsigned n) { return (i * 3 + 1) % (2 * n); } };
